@@ -148,12 +148,16 @@ def strict_test_coverage(ctx: Ctx) -> None:
     covered: set[str] = set()
     g = build_cfg(t.node)
     decoded = names_from_calls(t.node, ("deserialize",))
-    for n in g.nodes:
-        if n.kind == "test" and isinstance(n.ast, ast.Call) and unparse(n.ast.func) == "isinstance" and len(n.ast.args) == 2 and isinstance(n.ast.args[0], ast.Name) and n.ast.args[0].id in decoded:
-            tp = n.ast.args[1]
-            if isinstance(tp, ast.Name) and isinstance(t.module.globals.get(tp.id), ast.Tuple):
-                tp = t.module.globals[tp.id]
-            covered |= {unparse(e) for e in tp.elts} if isinstance(tp, ast.Tuple) else {unparse(tp)}
+    from ..q import family
+    for f_ in family(ctx.repo, t):
+        # in a helper the decoded value arrives as a parameter
+        cand = decoded if f_ is t else {a.arg for a in f_.params if a.arg not in ("self", "cls")}
+        for c_ in walk_no_nested(f_.node):
+            if isinstance(c_, ast.Call) and unparse(c_.func) == "isinstance" and len(c_.args) == 2 and isinstance(c_.args[0], ast.Name) and c_.args[0].id in cand:
+                tp = c_.args[1]
+                if isinstance(tp, ast.Name) and isinstance(f_.module.globals.get(tp.id), ast.Tuple):
+                    tp = f_.module.globals[tp.id]
+                covered |= {unparse(e) for e in tp.elts} if isinstance(tp, ast.Tuple) else {unparse(tp)}
     need = {"int", "float", "Decimal", "XmlPeriod"}
     for tp in sorted(need):
         ctx.ob(f"strict test re-serialises {tp}", tp in covered, at=t, construct=f"strict {tp}", msg=f"'{tp}' values with non-canonical spelling (leading zeros, +, trailing zeros) would be inferred as {tp} and change on output")
@@ -187,6 +191,7 @@ def _not_none_assert_on_parsed(fi: FuncInfo, node: ast.Assert) -> bool:
     (other than a name that is directly the last, i.e. the optional %z, unpack target)."""
     derived: set[str] = set()
     last: set[str] = set()
+    whole: set[str] = set()
     for _ in range(3):
         for st in walk_no_nested(fi.node):
             if isinstance(st, (ast.Assign, ast.AnnAssign)) and st.value is not None:
@@ -196,7 +201,10 @@ def _not_none_assert_on_parsed(fi: FuncInfo, node: ast.Assert) -> bool:
                     for t in tgts:
                         names = [x for x in ast.walk(t) if isinstance(x, ast.Name)]
                         derived |= {x.id for x in names}
-                        if "parse_date_args" in unparse(st.value) and isinstance(t, (ast.Tuple, ast.List)) and t.elts and isinstance(t.elts[-1], ast.Name):
+                        whole_result = "parse_date_args" in unparse(st.value) or (isinstance(st.value, ast.Name) and st.value.id in whole)
+                        if "parse_date_args" in unparse(st.value) and isinstance(t, ast.Name):
+                            whole.add(t.id)  # args = parse_date_args(...): the complete result, offset last
+                        if whole_result and isinstance(t, (ast.Tuple, ast.List)) and t.elts and isinstance(t.elts[-1], ast.Name):
                             last.add(t.elts[-1].id)
             elif isinstance(st, ast.For) and {x.id for x in ast.walk(st.iter) if isinstance(x, ast.Name)} & derived:
                 derived |= {x.id for x in ast.walk(st.target) if isinstance(x, ast.Name)}
@@ -220,6 +228,9 @@ def _not_none_assert_on_parsed(fi: FuncInfo, node: ast.Assert) -> bool:
         neg = False
         if isinstance(t, ast.UnaryOp) and isinstance(t.op, ast.Not):
             t, neg = t.operand, True
+            if isinstance(t, ast.BoolOp) and isinstance(t.op, ast.Or):
+                # not (a is None or b is None)  ==  a is not None and b is not None
+                return all(not_none(v, set(), want_is_none=True) for v in t.values)
         if isinstance(t, ast.Call) and isinstance(t.func, ast.Name) and t.func.id == ("any" if neg else "all") and t.args and isinstance(t.args[0], (ast.GeneratorExp, ast.ListComp)):
             comp = t.args[0]
             if not ({x.id for x in ast.walk(comp.generators[0].iter) if isinstance(x, ast.Name)} & (derived - last)):
